@@ -237,6 +237,13 @@ func (n *networkService) AllocIP(ctx context.Context, r *rpc.AllocIPRequest) (*r
 		return nil, err
 	}
 
+	// an ADD that fails below must hand back what it took
+	rollback := func() {
+		_ = n.eniMgr.Release(ctx, cni, &eni.ReleaseRequest{
+			NetworkResources: excludeRecorded(resp, oldRes),
+		})
+	}
+
 	for _, res := range resp {
 		netConf = append(netConf, res.ToRPC()...)
 		networkResource = append(networkResource, res.ToStore()...)
@@ -257,11 +264,13 @@ func (n *networkService) AllocIP(ctx context.Context, r *rpc.AllocIPRequest) (*r
 
 	err = defaultForNetConf(netConf)
 	if err != nil {
+		rollback()
 		return nil, err
 	}
 
 	out, err := json.Marshal(netConf)
 	if err != nil {
+		rollback()
 		return nil, &types.Error{
 			Code: types.ErrInternalError,
 			R:    err,
@@ -286,6 +295,7 @@ func (n *networkService) AllocIP(ctx context.Context, r *rpc.AllocIPRequest) (*r
 
 	err = n.resourceDB.Put(podID, newRes)
 	if err != nil {
+		rollback()
 		return nil, err
 	}
 
